@@ -163,10 +163,32 @@ fn known_signatures(args: &Args, property: &str) -> Vec<String> {
         .unwrap_or_default()
 }
 
-fn known_tags_for(sigs: &[String], harness: &str, case: &str) -> Vec<String> {
-    let prefix = format!("{harness}|{case}|");
-    sigs.iter().filter_map(|s| s.strip_prefix(&prefix).map(|t| t.to_string())).collect()
+
+/// minimal glob: `*` matches any (possibly empty) substring; everything else is literal
+pub fn glob_match(pat: &str, s: &str) -> bool {
+    let parts: Vec<&str> = pat.split('*').collect();
+    if parts.len() == 1 {
+        return pat == s;
+    }
+    let mut pos = 0usize;
+    for (i, p) in parts.iter().enumerate() {
+        if i == 0 {
+            if !s.starts_with(p) {
+                return false;
+            }
+            pos = p.len();
+        } else if i == parts.len() - 1 {
+            return s.len() >= pos + p.len() && s[pos..].ends_with(p);
+        } else {
+            match s[pos..].find(p) {
+                Some(j) => pos += j + p.len(),
+                None => return false,
+            }
+        }
+    }
+    true
 }
+
 
 fn tier_budget(tier: &str) -> f64 {
     if tier == "thorough" {
@@ -190,20 +212,20 @@ pub fn main(harness: &str, property: &str, cases: Vec<Case>) -> ! {
     }
     if let Some((case, k, kk)) = args.job {
         let sigs = known_signatures(&args, property);
-        let tags = known_tags_for(&sigs, harness, &cases[case].name);
-        worker_main(&args, &cases[case], case, k, kk, tags);
+        let prefix = format!("{}|{}|", harness, cases[case].name);
+        worker_main(&args, &cases[case], case, k, kk, (prefix, sigs));
     }
     std::process::exit(parent_main(harness, property, &args, &cases));
 }
 
-fn worker_main(args: &Args, case: &Case, idx: usize, k: u32, kk: u32, known_tags: Vec<String>) -> ! {
+fn worker_main(args: &Args, case: &Case, idx: usize, k: u32, kk: u32, known: (String, Vec<String>)) -> ! {
     rt::init_session(3_000_000);
     let mut stages = if args.tier == "thorough" { case.thorough.clone() } else { case.quick.clone() };
     if args.job_first_stage_only {
         stages.truncate(1);
     }
     let budget = args.budget.unwrap_or_else(|| tier_budget(&args.tier));
-    let limits = Limits { known_tags, deadline: explore::deadline_in(budget), worker: (k, kk) };
+    let limits = Limits { known_prefix: known.0, known_globs: known.1, deadline: explore::deadline_in(budget), worker: (k, kk) };
     let r = explore::explore(&case.cfg, &stages, &limits, &args.job_ne, case.body.clone());
     let (nstates, transitions, capped) = rt::session_counts();
     let out = args.out.clone().expect("--out");
@@ -278,6 +300,14 @@ fn replay_main(harness: &str, path: &Path, cases: &[Case]) -> i32 {
     let mut cfg = case.cfg.clone();
     cfg.stale_reads = cfg.stale_reads && rf.sb > 0;
     cfg.states = false;
+    {
+        // same warm-up as the explorer
+        let mut c = cfg.clone();
+        c.states = false;
+        let ne = std::sync::Arc::new(rf.non_elidable.iter().copied().collect::<HashSet<u32>>());
+        let _ = rt::run_once(&c, &[], &[], &ne, &case.body);
+        let _ = rt::run_once(&c, &[], &[], &ne, &case.body);
+    }
     let r = explore::replay(&cfg, &rf.choices, &rf.non_elidable, case.body.clone());
     println!("replay of {} case {} ({} choices, {} steps)", harness, rf.case, rf.choices.len(), r.steps);
     for t in &r.trace {
